@@ -101,4 +101,4 @@ def nontrivial(case, result):
 
 def prebuild(root):
     """translator: regenerate coq/Generated/Loops.v from /repo/src/buint/*.rs (proved equal to the model in Proofs/LoopsTieC06.v)"""
-    return run_translator(root, "rs2v_loops.py", "C06")
+    return run_translator(root, "rs2v_loops.py", "C06") or run_translator(root, "rs2v_glue.py", "C06")
